@@ -241,6 +241,11 @@ theorem code_spans_hold_text : type_of% @GM.Props.Inlines.codespan_holds_text :=
 /-- No Link has a Link below it (through Emphasis and Image descriptions too). -/
 theorem links_never_nested : type_of% @GM.Props.Inlines.no_link_in_link := @GM.Props.Inlines.no_link_in_link
 
+/-- Clause (c) for inline content, for EVERY source and padding-free well-formed line list: all segments recorded in the
+    inline tree that parseBlock returns (Text nodes, code-span text, autolink values, raw HTML segments) lie inside
+    the source and follow each other in document order without overlap. -/
+theorem inline_segments_in_range_and_ordered : type_of% @GM.Props.Inlines.text_segments_in_range_and_ordered := @GM.Props.Inlines.text_segments_in_range_and_ordered
+
 /-! ### the block phase (GM.Model.Blocks, tied by the `blocks` correspondence) -/
 
 /-- No block parser ever moves the reader's line end backwards (an ingredient of "a block's lines are increasing"; the
